@@ -772,10 +772,12 @@ func runSchedule(cr *rng, seq int, script []string) (blocked bool) {
 				run.blocked = true
 			}
 			if inDelete {
+				// (long enough to see an answer that was only put off: a purge must not be acknowledged after "a while"
+				// either, as long as the delete has not been carried out)
 				select {
 				case code = <-acked:
 					early = true
-				case <-time.After(300 * time.Millisecond):
+				case <-time.After(2600 * time.Millisecond):
 				}
 			}
 			close(run.delGate)
